@@ -323,7 +323,11 @@ func (cr *concRun) checkLinExp(out *ConcOutcome) {
 				in := o.Input.(expIn)
 				s += fmt.Sprintf("\n    c%d [%d,%d] now=[%d,%d] %s v=%d comp=%s calls=%d saw=%d/%v dur=%d cause=%d -> %+v", o.ClientId-1, o.Call/2, o.Return/2, in.nowLo, in.nowHi, in.kind, in.v, in.comp, in.calls, in.saw, in.sawFound, in.dur, in.cause, o.Output)
 			}
-			cr.fail(P("C03", "C02"), "lin.expiry-illegal", k, "history of key %d is not explainable by a map with deadlines (policy %s, duration %d):%s", k, cfg.Expiry, cfg.ExpD, s)
+			props := P("C03")
+			if cr.opts.AsyncClock {
+				props = P("C02") // the clock moved during operations: outside C03's quantifier
+			}
+			cr.fail(props, "lin.expiry-illegal", k, "history of key %d is not explainable by a map with deadlines (policy %s, duration %d):%s", k, cfg.Expiry, cfg.ExpD, s)
 		}
 	}
 	// how often an operation met an expired-but-unswept entry is reported through the probes
